@@ -315,6 +315,102 @@ def check(prog, res, tier):
            undecided=None if endians else 'no BitArray use observed')
     res.add(ob)
 
+    # ---- C01.f bit order inside BitArray: MSB-first text of the whole byte string, in list order
+    bci = prog.cls('BitArray.BitArray')
+
+    def reaches(v, src, depth=0):
+        if depth > 8:
+            return False
+        if isinstance(v, SeqV):
+            for g in v.segs:
+                if isinstance(g, Sl) and g.src is src:
+                    return True
+                if isinstance(g, Opq):
+                    d = g.desc
+                    parts = list(d[1:]) if isinstance(d, tuple) else []
+                    parts += list(g.deps)
+                    if any(reaches(x, src, depth + 1) for x in parts):
+                        return True
+                if isinstance(g, Num) and g.val is None and g.vdesc is not None and reaches(g.vdesc, src, depth + 1):
+                    return True
+        if isinstance(v, ListV):
+            return reaches(getattr(v, 'src', None), src, depth + 1) or reaches(v.elem, src, depth + 1)
+        if isinstance(v, IntV):
+            return False
+        return False
+
+    def entry_tl(it):
+        obj = it.instantiate(bci, [], {}, None)
+        b = it.sym_bytes('bitmap', lo=16, hi=16)
+        it.user['b'] = b
+        it.call_function(bci.lookup('frombytes')[1], [b], {}, self_obj=obj)
+        return it.call_function(bci.lookup('tolist')[1], [], {}, self_obj=obj)
+    runs_tl = Runs(prog, entry_tl, res=res)
+
+    def chk_tl(p, mode):
+        if p.outcome != 'return':
+            return [definite(f'tolist raises {p.value!r}')] if p.outcome == 'raise' else []
+        v = p.value
+        it = p.interp
+        bsrc = it.user['b'].segs[0].src
+        if not (isinstance(v, ListV) and v.len is not None and p.store.decide_eq0(v.len - 128) is True):
+            return [definite(f'tolist of a 16-byte bitmap yields {v!r}, not 128 flags')]
+        src = getattr(v, 'src', None)
+        if isinstance(src, SeqV) and len(src.segs) == 1 and isinstance(src.segs[0], Opq) and isinstance(src.segs[0].desc, tuple) \
+                and src.segs[0].desc[0] == 'reversed':
+            return [definite('the binary digits are reversed before they become flags (bit n and bit 129-n are swapped)')]
+        if not (isinstance(src, SeqV) and len(src.segs) == 1 and isinstance(src.segs[0], Num)):
+            return [soft(f'bit list is not built from the binary numeral of the bytes: {src!r}')]
+        n = src.segs[0]
+        fails = []
+        if n.base != 2 or n.fill != '0' or p.store.decide_eq0(n.width - 128) is not True:
+            fails.append(definite(f'bit text is {n!r}, not the zero-filled 128-digit binary numeral'))
+        o = it.origin.get(n.val.syms()[0]) if n.val is not None and n.val.syms() else None
+        if not (o and o[0] == 'int' and o[2] == 16 and reaches(o[1], bsrc)):
+            fails.append(definite('the binary numeral is not the big-endian integer value of the bitmap bytes (int(hexlify(bytes), 16))'))
+        elif isinstance(o[1], SeqV) and any(isinstance(g, Opq) and isinstance(g.desc, tuple) and g.desc[0] == 'reversed' for g in o[1].segs):
+            fails.append(definite('the bytes are reversed before conversion'))
+        if getattr(v, 'desc', '') != 'listcomp' or getattr(v, 'filtered', False):
+            fails.append(definite('the flags are not one per binary digit in order'))
+        return fails
+    res.add(runs_tl.judge('C01.f', 'BitArray.tolist yields the bits of the byte string MSB first, in order', func_where(bci.lookup('tolist')[1]),
+                          "'{:0{width}b}'.format(int(hexlify(bytes), 16))", chk_tl, rule='C01.f.tolist'))
+
+    def entry_fl(it):
+        obj = it.instantiate(bci, [], {}, None)
+        lst = ListV(items=[ConstV(True)] + [SymV(f'flag{i}', 'bool') for i in range(127)])
+        it.user['lst'] = lst
+        it.call_function(bci.lookup('fromlist')[1], [lst], {}, self_obj=obj)
+        return it.call_function(bci.lookup('tobytes')[1], [], {}, self_obj=obj)
+    runs_fl = Runs(prog, entry_fl, res=res)
+
+    def chk_fl(p, mode):
+        if p.outcome != 'return':
+            return [definite(f'fromlist raises {p.value!r}')] if p.outcome == 'raise' else []
+        v = p.value
+        it = p.interp
+        if not (isinstance(v, SeqV) and v.kind == 'bytes' and p.store.decide_eq0(v.length() - 16) is True):
+            return [definite(f'128 flags pack into {v!r}, not 16 bytes')]
+        g = v.segs[0] if len(v.segs) == 1 else None
+        if not (isinstance(g, Opq) and isinstance(g.desc, tuple) and g.desc[0] == 'to_bytes'):
+            return [soft(f'packed bitmap has an unexpected shape: {v!r}')]
+        fails = []
+        if g.desc[2] != 'big':
+            fails.append(definite(f'bits are packed {g.desc[2]!r}-endian, not big-endian'))
+        x = g.desc[1]
+        o = it.origin.get(x.lin.syms()[0]) if isinstance(x, IntV) and x.lin.syms() else None
+        ok = o and o[0] == 'int' and o[2] == 2 and isinstance(o[1], SeqV) and len(o[1].segs) == 1 and isinstance(o[1].segs[0], Opq) \
+            and isinstance(o[1].segs[0].desc, tuple) and o[1].segs[0].desc[0] == 'join-bits'
+        if not ok:
+            fails.append(soft('packed value is not int(<0/1 text of the list>, 2)'))
+        else:
+            lv = o[1].segs[0].desc[1]
+            if not (isinstance(lv, ListV) and getattr(lv, 'src', None) is it.user['lst'] and not getattr(lv, 'filtered', False)):
+                fails.append(definite('the 0/1 text is not built from the flag list in order'))
+        return fails
+    res.add(runs_fl.judge('C01.f', 'BitArray.fromlist packs the flags MSB first into big-endian bytes', func_where(bci.lookup('fromlist')[1]),
+                          "int(binary_value, 2).to_bytes(len(binary_value) // 8, byteorder='big')", chk_fl, rule='C01.f.fromlist'))
+
     # ---- C01.g codec flow
     bad = []
     n_codec = 0
